@@ -19,16 +19,19 @@ package fasta
 // Besides totality (C03): every fragment of a physical line longer than the bufio buffer is kept (C01, C04).
 // lineSoFar/lineLen are ghost counters of bufio.Reader.ReadLine (bytes of the current physical line handed out
 // so far); whenever a line is complete and about to be trimmed and parsed, the accumulated line has exactly
-// as many bytes as the reader handed out for it - nothing dropped, nothing duplicated.
+// as many bytes as the reader handed out for it - nothing dropped, nothing duplicated; and a record is never returned
+// as the last one of the input (no record in progress afterwards) right after the input ended inside a line whose
+// fragments were still being collected (eofPending): those fragments are the last line and have to be used first.
 //@ func (*Reader).Read
 //@   property C03 C01 C04
 //@   requires wfReader(r) && lineSoFar(r.r) == 0
 //@   ensures [value-or-error] result0 != nil || result1 != nil
 //@   ensures [line-boundary]  lineSoFar(r.r) == 0
+//@   ensures [no-fragment-lost] result1 == nil && r.working == nil ==> eofPending(r.r) == 0
 //@   assert call bytes.TrimSpace :: len(arg0) == lineLen(r.r)
 //@   loop 1 invariant wfReader(r) && (fresh(line) || arr(line) == 0) && r.r == old(r.r)
 //@   loop 1 invariant [fragments] len(line) == lineSoFar(r.r)
-//@   loop 1 assigns lineSoFar(r.r), lineLen(r.r)
+//@   loop 1 assigns lineSoFar(r.r), lineLen(r.r), eofPending(r.r)
 
 // The byte count returned by Write equals the number of bytes the underlying writer accepted,
 // on every exit (success or error).
